@@ -69,7 +69,7 @@ UNITS = {
             ("src/header/mod.rs", ["struct:Header", "consts:Header"]),
             ("src/range/mod.rs", ["struct:Range", "struct:ContentRange", "consts:Range"]),
             ("src/response/mod.rs", ["struct:StatusCodeReasonPhrase", "struct:Error"]),
-            ("src/request/mod.rs", ["struct:Request", "struct:Method", "const:METHOD", "fn:Request::get_header:assume"]),
+            ("src/request/mod.rs", ["struct:Request", "struct:Method", "const:METHOD", "fn:Request::get_header"]),
             ("src/entry_point/mod.rs", ["struct:Config", "consts:Config"]),
             ("src/cors/mod.rs", ["struct:Cors", "consts:Cors", "fn:Cors::get_vary_header_value", "fn:Cors::allow_all",
                                  "fn:Cors::_process", "fn:Cors::process_using_default_config", "fn:Cors::get_headers"]),
@@ -149,7 +149,7 @@ UNITS = {
         "sources": [
             SYMBOL_SRC,
             ("src/header/mod.rs", ["struct:Header", "consts:Header"]),
-            ("src/request/mod.rs", ["struct:Request", "struct:Method", "const:METHOD", "fn:Request::get_header:assume"]),
+            ("src/request/mod.rs", ["struct:Request", "struct:Method", "const:METHOD", "fn:Request::get_header"]),
             ("src/response/mod.rs", ["struct:Response", "struct:StatusCodeReasonPhrase", "struct:ResponseStatusCodeReasonPhrase",
                                      "const:STATUS_CODE_REASON_PHRASE", "struct:Error"]),
             ("src/server/mod.rs", ["struct:ConnectionInfo", "struct:Address"]),
@@ -230,20 +230,21 @@ UNITS = {
         "contracts": ["contracts/log.vc"],
     },
     "forms": {
-        "preludes": ["shims/core.rs", "shims/bytes.rs", "shims/env.rs", "shims/fs.rs", "shims/forms.rs"],
+        "preludes": ["shims/core.rs", "shims/bytes.rs", "shims/env.rs", "shims/fs.rs", "shims/forms.rs", "shims/ctl.rs"],
         "specs": ["contracts/spec/hv.rs", "contracts/spec/lookup.rs", "contracts/spec/frames.rs", "contracts/spec/static.rs"],
         "sources": [
             SYMBOL_SRC,
             ("src/header/mod.rs", ["struct:Header", "consts:Header"]),
             ("src/mime_type/mod.rs", ["struct:MimeType", "consts:MimeType"]),
             ("src/range/mod.rs", ["struct:Range", "struct:ContentRange", "consts:Range"]),
-            ("src/request/mod.rs", ["struct:Request", "struct:Method", "const:METHOD", "fn:Request::get_header:assume", "fn:Request::get_query:assume",
-                                    "fn:Request::get_uri_query:assume", "fn:Request::get_uri_path:assume"]),
+            ("src/url/mod.rs", ["struct:URL", "fn:URL::parse:assume", "fn:URL::parse_request_target:assume", "fn:URL::parse_query:assume"]),
+            ("src/request/mod.rs", ["struct:Request", "struct:Method", "const:METHOD", "fn:Request::get_header:assume", "fn:Request::get_query",
+                                    "fn:Request::get_uri_query", "fn:Request::get_uri_path"]),
             ("src/response/mod.rs", ["struct:Response", "struct:StatusCodeReasonPhrase", "struct:ResponseStatusCodeReasonPhrase",
                                      "const:STATUS_CODE_REASON_PHRASE", "struct:Error"]),
             ("src/server/mod.rs", ["struct:ConnectionInfo", "struct:Address"]),
             ("src/entry_point/mod.rs", ["fn:get_request_allocation_size:assume"]),
-            ("src/body/form_urlencoded/mod.rs", ["struct:FormUrlEncoded", "fn:FormUrlEncoded::parse:assume"]),
+            ("src/body/form_urlencoded/mod.rs", ["struct:FormUrlEncoded", "fn:FormUrlEncoded::parse"]),
             ("src/app/controller/file/initiate/mod.rs", ["struct:FileUploadInitiateController", "fn:FileUploadInitiateController::is_matching",
                                     "fn:FileUploadInitiateController::process", "fn:FileUploadInitiateController::is_matching_request", "fn:FileUploadInitiateController::process_request"]),
             ("src/app/controller/form/get_method/mod.rs", ["struct:FormGetMethodController", "fn:FormGetMethodController::is_matching",
@@ -287,11 +288,11 @@ UNITS = {
         "contracts": ["contracts/request.vc", "contracts/response_parse.vc"],
     },
     "multipart": {
-        "preludes": ["shims/core.rs", "shims/bytes.rs", "shims/cursor.rs"],
+        "preludes": ["shims/core.rs", "shims/bytes.rs", "shims/cursor.rs", "shims/ctl.rs"],
         "specs": ["contracts/spec/hv.rs", "contracts/spec/crlf.rs", "contracts/spec/multipart.rs", "contracts/spec/multipart_thm.rs"],
         "sources": [
             SYMBOL_SRC,
-            ("src/ext/string_ext/mod.rs", ["struct:StringExt", "fn:StringExt::truncate_new_line_carriage_return", "fn:StringExt::filter_ascii_control_characters:assume"]),
+            ("src/ext/string_ext/mod.rs", ["struct:StringExt", "fn:StringExt::truncate_new_line_carriage_return", "fn:StringExt::filter_ascii_control_characters"]),
             ("src/header/mod.rs", ["struct:Header", "fn:Header::as_string", "fn:Header::parse_header"]),
             ("src/body/multipart_form_data/mod.rs", ["struct:FormMultipartData", "struct:Part", "fn:Part::get_header", "fn:FormMultipartData::is_delimiter", "fn:FormMultipartData::parse",
                                                      "fn:FormMultipartData::parse_form_part_recursively", "fn:FormMultipartData::extract_boundary",
@@ -323,7 +324,7 @@ UNITS = {
         "contracts": ["contracts/json_array.vc"],
     },
     "json_object": {
-        "preludes": ["shims/core.rs", "shims/bytes.rs", "shims/cursor_json.rs"],
+        "preludes": ["shims/core.rs", "shims/bytes.rs", "shims/cursor_json.rs", "shims/ctl.rs"],
         "specs": [],
         "sources": [
             SYMBOL_SRC,
@@ -369,6 +370,9 @@ def owner(unit, f):
             return "C05"
         if unit == "request_parse":
             return "C14"
+    # case-insensitive header lookup: C14 states it; the CORS decision (Origin, Access-Control-Request-*) and the Range header rest on it
+    if f.fn == "Request::get_header" and f.kind not in SAFETY_KINDS:
+        return ("C14", "C11", "C09", "C03")
     if f.fn.startswith("URL::is_path_inside_root") and f.kind == "postcondition" and f.snippet.replace(" ", "").startswith("inside(path@)==>res"):
         return "C02"        # the guard refuses a path that stays inside: files are not served (C02), containment (C01) is intact
     if any(w in f.snippet for w in CONTAINMENT_WORDS) or f.fn.startswith("URL::is_path_inside_root"):
@@ -529,7 +533,7 @@ PROPS = {
         ],
     },
     "C13": {
-        "units": ["static", "controllers", "forms", "server", "app", "log", "multipart"],
+        "units": ["static", "controllers", "forms", "server", "app", "log", "multipart", "range_parse", "request_parse", "response_gen", "cors", "header_list", "mime"],
         "level": "other",
         "falsifier": ["fswatch"],
         "case_prefixes": ["c13_"],
